@@ -44,6 +44,20 @@ theorem C07_synced_then_registered (single abort : Bool) (evs : List REv) (hfres
     pinv_run c evs (rinit single abort) .fresh false (pinv_init c single abort) (by simp) hfresh
   exact synced_registers ev hinv h
 
+/-- The part of "every linked consumer that did not ask for a sync receives every event" that holds: a consumer
+that was waiting when the remote's `linked` arrived and did not ask for SYNC is registered by that very step
+(so `C07_registered_tail_exact` applies to it from then on). The late joiner is finding F8. -/
+theorem C07_nosync_linked_then_registered (single abort : Bool) (evs : List REv) (hfresh : (attachIds evs).Nodup)
+    (c : Nat) (h : Note.linked ∈ logOf c (rstep (rreach single abort evs) (.msg .linked)).2) :
+    ∃ x, x ∈ (rreach single abort evs).aLinked ∧ x.id = c ∧
+      (x.sync = false → RegAt c (rstep (rreach single abort evs) (.msg .linked)).1 x) ∧
+      (rstep (rreach single abort evs) (.msg .linked)).1.alive x = true ∧
+      (rstep (rreach single abort evs) (.msg .linked)).1.stopped = false := by
+  obtain ⟨p, att, _, hinv⟩ :=
+    pinv_run c evs (rinit single abort) .fresh false (pinv_init c single abort) (by simp) hfresh
+  obtain ⟨x, h1, h2, h3, h4, h5⟩ := linked_registers_nosync hinv h
+  exact ⟨x, h2, h3, h1, h4, h5⟩
+
 /-- **Events after `synced` are exactly the remote's events, in order**: from any reachable state in which `c`
 is registered, for every continuation in which `c` keeps its reader, `c` receives precisely `expectedTail`:
 one `event b` per remote event `b` (an uninterpretable frame closes the link, or — ignore strategy — is
@@ -116,6 +130,7 @@ theorem C07_linked_nosync_gets_every_event_fails : ¬ C07_linked_nosync_gets_eve
 /-! Non-vacuity: the hypotheses above are met by non-trivial reachable states. -/
 
 example : (attachIds f8Trace).Nodup := by decide
+example : Note.linked ∈ logOf 0 (rstep (rreach true true (f8Trace.take 1)) (.msg .linked)).2 := by decide
 example : RegAt 0 (rreach true true (f8Trace.take 4)) { id := 0, sync := true, keep := true } := by
   unfold RegAt; decide
 example : (rreach true true (f8Trace.take 4)).alive { id := 0, sync := true, keep := true } = true := by decide
